@@ -1,6 +1,6 @@
 #!/bin/bash
-# Regenerates gen/Locks.v (the lockset access table) from the repository working tree,
+# Regenerates gen/Locks.v (lockset access table + member list) from the repository working tree,
 # so that the Coq project can be built from clean (bin/setup) - the check does the same on every run.
 cd "$(dirname "$0")"
 mkdir -p gen
-exec python3 ../../props/C12/lockgen.py --repo "${VERIF_REPO:-/repo}" --out gen/Locks.v 2>/dev/null
+exec python3 ../../props/C12/lockgen_ast.py --repo "${VERIF_REPO:-/repo}" --out gen/Locks.v >/dev/null 2>&1
